@@ -1,12 +1,13 @@
 //go:build verif
 
 //verif:dir p2p/host/peerstore/pstoreds
+//verif:also C08 VerifC09eDsRecords
 //verif:hook core/record Envelope.Record
 //verif:hook core/record Envelope.Marshal
 //verif:hook core/record ConsumeEnvelope
 //verif:hook core/peer ID.MatchesPublicKey
 //verif:shard VerifC09eDsRecords 12
-//verif:obligation C09.e signed peer records in the datastore-backed book, against the same reference model as the memory book (C09.d), on every history of 2 (thorough 3) operations from {ConsumePeerRecord(record over 2 addresses, seq 0..3, Temp / RecentlyConnected TTL), SetAddrs(connected), UpdateAddrs(class -> 0), UpdateAddrs(Connected -> Temp), ClearAddrs} with symbolic clock advances: a record is accepted iff its sequence number is not lower than the stored one, evicts the addresses of the previous record it no longer lists unless a live connection holds them, Addrs equals the reference after every step, and GetPeerRecord returns the latest accepted envelope exactly while the peer continuously has a live address - never after all its addresses expired or were cleared
+//verif:obligation C09.e (and C08: a peer record is consumed by a peerstore only if its peer ID is the ID of the signing key - a record sealed by a foreign key is refused and leaves no trace in addresses or stored record) signed peer records in the datastore-backed book, against the same reference model as the memory book (C09.d), on every history of 2 (thorough 3) operations from {ConsumePeerRecord(record over 2 addresses, seq 0..3, Temp / RecentlyConnected TTL), SetAddrs(connected), UpdateAddrs(class -> 0), UpdateAddrs(Connected -> Temp), ClearAddrs} with symbolic clock advances: a record is accepted iff its sequence number is not lower than the stored one, evicts the addresses of the previous record it no longer lists unless a live connection holds them, Addrs equals the reference after every step, and GetPeerRecord returns the latest accepted envelope exactly while the peer continuously has a live address - never after all its addresses expired or were cleared
 //verif:bound one peer, 2 addresses, history 2 (3), whole-second instants
 //verif:stub Envelope.Record / Envelope.Marshal / record.ConsumeEnvelope / ID.MatchesPublicKey hooked (an envelope marshals to an opaque name that unmarshals to the same envelope: crypto and protobuf outside); flush hooked to "mark clean"; cache is a harness map; multiaddrs are atoms
 //verif:outside the serialized record surviving a real close / reopen, ARC eviction, signature validation (C08)
@@ -96,7 +97,7 @@ func VerifC09eDsRecords() {
 		}
 		return nil, nil, errors.New("bad envelope")
 	}
-	peer.VerifHook_ID_MatchesPublicKey = func(id peer.ID, pk crypto.PubKey) bool { return true }
+	peer.VerifHook_ID_MatchesPublicKey = func(id peer.ID, pk crypto.PubKey) bool { return !vC09foreignSigner }
 	defer func() {
 		record.VerifHook_Envelope_Record, record.VerifHook_Envelope_Marshal, record.VerifHook_ConsumeEnvelope = nil, nil, nil
 		peer.VerifHook_ID_MatchesPublicKey = nil
@@ -128,9 +129,18 @@ func VerifC09eDsRecords() {
 			}
 			env := &record.Envelope{}
 			vC09eRecs, vC09eEnvs = append(vC09eRecs, rec), append(vC09eEnvs, env)
+			vC09foreignSigner = i == K-1 && vBool() // the last operation may offer a record sealed by another key
 			ok, err := ab.ConsumePeerRecord(env, ttl)
-			want := !(ref.rec && ref.recSeq > seq)
-			vAssert(err == nil && ok == want, "record accepted iff its seq is not lower than the stored one")
+			if vC09foreignSigner {
+				vC09foreignSigner = false
+				vCover("record-sealed-by-a-foreign-key")
+				vAssert(!ok && err != nil, "a record whose peer ID is not the ID of the signing key is refused")
+				ok = false // and must leave no trace: the reference does not move
+				vC09eRecs, vC09eEnvs = vC09eRecs[:len(vC09eRecs)-1], vC09eEnvs[:len(vC09eEnvs)-1]
+			} else {
+				want := !(ref.rec && ref.recSeq > seq)
+				vAssert(err == nil && ok == want, "record accepted iff its seq is not lower than the stored one")
+			}
 			if ok {
 				vCover("record-accepted")
 				if ref.rec {
